@@ -823,6 +823,20 @@ class Gen:
 
     # ---- mutations ----
     def gen_op(self, V):
+        """one call; an op whose owner argument could not be determined (the generator reads the snapshot, and a broken
+        implementation can leave a child without parent) is replaced by a harmless one - the state it came from is
+        judged by the checks anyway"""
+        r = self.gen_op1(V)
+        op = r[0]
+        owner_at = {'SetParent': 1, 'SetChildren': 1, 'OpFloordiv': 1, 'SetLinks': 2, 'OpShift': 2, 'ChAppend': 1, 'ChRemove': 1,
+                    'ChInsert': 1, 'ChMove': 1, 'ChSort': 1, 'ChReorder': 1, 'ChRemoveAll': 1, 'LnAppend': 2, 'LnRemove': 2,
+                    'LnRemoveAll': 2, 'WbsRemove': 1, 'WbsRemoveAll': 1, 'SetEst': 1, 'SetPrio': 1}
+        i = owner_at.get(op[0])
+        if i is not None and not isinstance(op[i], int):
+            return ['SetPrio', self.rng.choice(V.users()), self.rng.randint(0, 5)], {}
+        return r
+
+    def gen_op1(self, V):
         rng = self.rng
         users = V.users()
         need = (self.n_tasks - self.made_tasks) + (self.n_wbs - self.made_wbs)
